@@ -559,7 +559,7 @@ def run(H):
     H.assumptions += ['exact real arithmetic', 'valid poses', 'SE3 Log/Exp inside bspline are contract stubs (C01/C02) honouring Log(I)=0, Exp(0)=I, Exp(Log X)=X',
                       'ape/rpe: exactly matching timestamps, and (jitter case) stamps on a 4 ms grid with |jitter| < 1.5 ms under a 10 ms threshold']
     H.bounds += ['chspline: N in 2..4 (thorough 6), intervals {0.5, 0.25, 0.3}, C in {1,2}', 'bspline: N=4 poses (thorough 5), intervals {0.5, 0.3}',
-                 'ape/rpe: 3 poses (thorough 4), translation error type', 'rpe(associate=distance): 4 poses with concrete collinear translations (all pairing decisions concrete), symbolic rotations, concrete translation of the estimate', 'geodesic loss: SO3 (quick), SE3 (thorough)']
+                 'ape/rpe: 3 poses (thorough 4), translation error type', 'rpe(associate=distance): 4 poses (thorough also 6) with concrete collinear translations (all pairing decisions concrete), symbolic rotations, concrete translation of the estimate', 'geodesic loss: SO3 (quick), SE3 (thorough)']
     jobs = []
     for N, itv, C in ([(2, 0.5, 1), (3, 0.25, 2), (4, 0.3, 1)] if H.quick else [(2, 0.5, 1), (3, 0.25, 2), (4, 0.3, 1), (5, 0.1, 2), (6, 0.4, 1)]):
         jobs.append(lambda N=N, i=itv, C=C: case_chspline(H, N, i, C))
@@ -577,6 +577,7 @@ def run(H):
         jobs.append(lambda: case_metrics(H, 4))
         jobs.append(lambda: case_geodesic(H, 'SE3'))
         jobs.append(lambda: case_geodesic_angle(H, 'SE3'))
+        jobs.append(lambda: case_rpe_distance(H, 6))
     only = getattr(H, 'only', None)
     if only:
         jobs = {'geodesic': jobs[8:10], 'metrics': jobs[6:7], 'jitter': jobs[7:8], 'bspline': jobs[3:6], 'chspline': jobs[:3], 'rpedist': jobs[10:11]}.get(only, jobs)
